@@ -223,6 +223,9 @@ def r2_slots(ctx, sgn, qfn):
             # a return from inside the element loop is only allowed when the element's weight is unparseable
             failed = any((isinstance(t, tuple) and v in ("None", "Err") and (qfn in repr(t) or "strip_prefix" in repr(t)[:200]))
                          for t, v in o.cons.variant.items())
+            if o.value != const(0):
+                ctx.violation("C16.R2", "C16.R2|unparseable-true", "should_gzip answers %s for a header with an unparseable element: gzip could be chosen for a client that did not allow it" % short(o.value, 20),
+                              where=_row_where(o))
             if not failed:
                 ctx.violation("C16.R2", "C16.R2|early-return", "should_gzip returns %s from inside the element loop although the element parsed: "
                               "elements later in the header can no longer override it (the answer depends on element order)" % short(o.value, 20),
